@@ -162,7 +162,7 @@ def build_goto(run, ob, odir):
     try:
         for m in json.loads(r["out"]):
             if "functions" in m:
-                nobody = [f["name"] for f in m["functions"] if not f.get("isBodyAvailable") and not f["name"].startswith("__")]
+                nobody = [f["name"] for f in m["functions"] if not f.get("isBodyAvailable") and not f["name"].startswith(("__CPROVER", "__builtin", "__VERIFIER", "__sync", "__atomic"))]
     except Exception:
         raise RuntimeError("cannot list goto functions:\n" + (r["out"] + r["err"])[-2000:])
     trap = sorted(set(nobody) - set(ob.get("allow_nobody", [])) - BUILTIN_OK)
@@ -196,7 +196,7 @@ def cbmc_cmd(ob, gb, backend, extra=()):
     cmd = ["cbmc", gb, "--function", ob.get("entry", "harness"), "--json-ui",
            "--no-standard-checks", "--bounds-check", "--pointer-check", "--div-by-zero-check",
            "--unwinding-assertions", "--no-malloc-may-fail", "--drop-unused-functions",
-           "--object-bits", str(ob.get("object_bits", 10))]
+           "--object-bits", str(ob.get("object_bits", 10)), "--verbosity", "8"]
     uw = list(ob.get("unwindset", [])) + list(ob.get("_unwind_fn_expanded", []))
     if uw:
         cmd += ["--unwindset", ",".join(uw)]
@@ -465,6 +465,14 @@ def run_obligation(run, ob):
             rec["notes"].append("no definitive answer: " + " | ".join(why))
             return rec
         rec["backend_used"] = win["backend"]
+        for k, t in win["msgs"]:
+            m = re.search(r"size of program expression: (\d+) steps", t)
+            if m:
+                rec["steps"] = max(rec.get("steps", 0), int(m.group(1)))
+            m = re.search(r"(\d+) variables, (\d+) clauses", t)
+            if m:
+                rec["sat_vars"] = max(rec.get("sat_vars", 0), int(m.group(1)))
+                rec["sat_clauses"] = max(rec.get("sat_clauses", 0), int(m.group(2)))
         viol, wit_ok, wit_bad, nprops = classify(win["results"])
         rec["props"] = nprops
         rec["witnesses"] = len(wit_ok)
@@ -564,7 +572,8 @@ def run_property(prop, tier, obligations, meta):
     """obligations: list of dicts (see harness/<prop>/spec.py).  Returns exit code."""
     seed = int(os.environ.get("VERIF_SEED", "0") or 0)
     run = Run(prop, tier, seed)
-    shutil.rmtree(os.path.join(VERIF, "replays", prop), ignore_errors=True)
+    if not os.environ.get("VERIF_EVIDENCE_DIR"):
+        shutil.rmtree(os.path.join(VERIF, "replays", prop), ignore_errors=True)
     kfs = [k for k in load_known_findings() if k.get("property") == prop and k.get("status") == "open"]
     obs = []
     for ob in obligations:
@@ -662,6 +671,12 @@ def write_evidence(prop, tier, seed, recs, meta, wall, violations):
                  "when the solver returned a definitive verdict AND every WITNESS assertion of the harness was shown reachable "
                  "(vacuity guard).",
             samples=samples,
+            states=max(1, sum(r.get("sat_vars", 0) for r in recs)),
+            transitions=max(1, sum(r.get("steps", 0) for r in recs)),
+            traces_validated_against_impl=sum(1 for r in recs for v in r["violations"] if v.get("replay") not in (None, "no-trace", "skipped", "replay-build-error")),
+            states_transitions_meaning="bounded model checking encodes the state space symbolically instead of enumerating it: 'states' is the number of "
+                                       "propositional variables of the SAT encodings (0 for SMT back ends, which do not report it), 'transitions' the number of "
+                                       "SSA program steps symbolically executed; traces_validated_against_impl counts counterexample traces replayed against a native build",
             obligations=len(recs), discharged=len(passed),
             functions_encoded=funcs, units=units,
             solver_s=round(sum(r.get("solver_s", 0) for r in recs), 1),
@@ -674,6 +689,7 @@ def write_evidence(prop, tier, seed, recs, meta, wall, violations):
         ),
         assumptions=meta.get("assumptions", []) + sorted({a for r in recs for a in r["assumes"]}),
         wall_s=round(wall, 1), violations=violations)
-    os.makedirs(os.path.join(VERIF, "evidence"), exist_ok=True)
-    with open(os.path.join(VERIF, "evidence", prop + ".json"), "w") as f:
+    evdir = os.environ.get("VERIF_EVIDENCE_DIR", os.path.join(VERIF, "evidence"))
+    os.makedirs(evdir, exist_ok=True)
+    with open(os.path.join(evdir, prop + ".json"), "w") as f:
         json.dump(ev, f, indent=1)
